@@ -213,11 +213,28 @@ func TestC16(t *testing.T) {
 	}
 	if Tier() != "thorough" {
 		// quick: a deterministic sample of the product (the thorough tier sends everything)
+		// every request of the small per-RPC domains is always sent; only the large Create/Update
+		// products are sampled
 		r := rand.New(rand.NewSource(Seed()))
-		r.Shuffle(len(reqs), func(i, j int) { reqs[i], reqs[j] = reqs[j], reqs[i] })
-		if len(reqs) > 900 {
-			reqs = reqs[:900]
+		var keep, bulk []Rpc
+		for _, q := range reqs {
+			if q.Kind == "updateSub" || q.Kind == "createSub" {
+				bulk = append(bulk, q)
+			} else {
+				keep = append(keep, q)
+			}
 		}
+		r.Shuffle(len(bulk), func(i, j int) { bulk[i], bulk[j] = bulk[j], bulk[i] })
+		if room := 900 - len(keep); room < len(bulk) {
+			if room < 300 {
+				room = 300
+			}
+			if room < len(bulk) {
+				bulk = bulk[:room]
+			}
+		}
+		reqs = append(keep, bulk...)
+		r.Shuffle(len(reqs), func(i, j int) { reqs[i], reqs[j] = reqs[j], reqs[i] })
 	}
 	all := append(append([]Rpc{}, setup...), reqs...)
 	crashed := map[string]bool{}
@@ -282,20 +299,36 @@ func TestC12(t *testing.T) {
 		var reqs []Rpc
 		var walks []func(results []*RpcResult) string
 		name := func(kind string) string {
-			return projects[r.Intn(len(projects))] + "/" + kind + "/" + []string{"a", "b", "c", "A"}[r.Intn(4)]
+			pr := projects[r.Intn(len(projects))]
+			if r.Intn(2) == 0 {
+				pr = projects[r.Intn(2)] // the two projects that differ only by case
+			}
+			return pr + "/" + kind + "/" + []string{"a", "b", "c", "A"}[r.Intn(4)]
+		}
+		// names the history has asked to create so far: later requests mostly refer to those
+		var plannedT, plannedS []string
+		pickOr := func(planned []string, kind string) string {
+			if len(planned) > 0 && r.Intn(5) > 0 {
+				return planned[r.Intn(len(planned))]
+			}
+			return name(kind)
 		}
 		for i := 0; i < 60; i++ {
 			switch r.Intn(12) {
 			case 0, 1, 2:
-				reqs = append(reqs, Rpc{Kind: "createTopic", Name: name("topics")})
+				n := name("topics")
+				plannedT = append(plannedT, n)
+				reqs = append(reqs, Rpc{Kind: "createTopic", Name: n})
 			case 3:
 				reqs = append(reqs, Rpc{Kind: "deleteTopic", Name: name("topics")})
 			case 4, 5:
-				reqs = append(reqs, Rpc{Kind: "createSub", Sub: &SubReq{Name: name("subscriptions"), Topic: name("topics")}})
+				n := name("subscriptions")
+				plannedS = append(plannedS, n)
+				reqs = append(reqs, Rpc{Kind: "createSub", Sub: &SubReq{Name: n, Topic: pickOr(plannedT, "topics")}})
 			case 6:
 				reqs = append(reqs, Rpc{Kind: "deleteSub", Name: name("subscriptions")})
 			case 7:
-				reqs = append(reqs, Rpc{Kind: "createSnap", Name: name("snapshots"), Name2: name("subscriptions")})
+				reqs = append(reqs, Rpc{Kind: "createSnap", Name: name("snapshots"), Name2: pickOr(plannedS, "subscriptions")})
 			case 8:
 				reqs = append(reqs, Rpc{Kind: "deleteSnap", Name: name("snapshots")})
 			case 9:
